@@ -442,6 +442,168 @@ theorem table_put_other (w : World) (e : Entity) (j : Int) (h : j ≠ e.id) :
 theorem table_put_same (w : World) (e : Entity) : (w.put e).get? e.id = some e :=
   World.get_put_same w e
 
+/-! ### last writer wins over whole histories -/
+/-- what a property-update packet writes, as a function of the entity's (immutable) view:
+nothing when the index or the payload is bad -/
+def propWrite (view : EntityView) (idx : Nat) (data : Bytes) : Option (String × Val) :=
+  match view.clientProps[idx]? with
+  | none => none
+  | some p =>
+    match decode 1 p.ty data with
+    | .error _ => none
+    | .ok (v, _) => some (p.name, v)
+
+/-- the writes a packet list makes to the client bucket of entity `id`, in stream order -/
+def writesTo (view : EntityView) (id : Nat) : List Packet → List (String × Val)
+  | [] => []
+  | .entityProperty id' idx data :: ps =>
+    if id' = id then (propWrite view idx data).toList ++ writesTo view id ps else writesTo view id ps
+  | _ :: ps => writesTo view id ps
+
+def applyWrites (d : List (String × Val)) (ws : List (String × Val)) : List (String × Val) :=
+  ws.foldl (fun d kv => dictSet d kv.1 kv.2) d
+
+/-- lenient play at packet level: errors are swallowed, the world goes on -/
+def runAll (cfg : Config) (w : World) (ps : List Packet) : World :=
+  ps.foldl (fun w p => (step cfg w p).world) w
+
+theorem setClientProperty_entity (reg : Registry) (e : Entity) (idx : Nat) (data : Bytes) :
+    (setClientProperty reg e idx data).1 =
+      match propWrite e.view idx data with
+      | none => e
+      | some kv => { e with client := dictSet e.client kv.1 kv.2 } := by
+  unfold setClientProperty propWrite
+  cases h1 : e.view.clientProps[idx]? with
+  | none => rfl
+  | some p =>
+    simp only
+    cases h2 : decode 1 p.ty data with
+    | error er => rfl
+    | ok r => obtain ⟨v, rest⟩ := r; rfl
+
+theorem stepEntityProperty_get (cfg : Config) (w : World) (id idx : Nat) (data : Bytes) (e : Entity)
+    (hwf : w.WF) (hget : w.get? (id : Int) = some e) :
+    (stepEntityProperty cfg w id idx data).world.get? (id : Int) = some (setClientProperty cfg.reg e idx data).1 := by
+  unfold stepEntityProperty
+  simp only [hget]
+  have he : e.id = (id : Int) := World.get_wf w hwf id e hget
+  have hid := setClientProperty_id cfg.reg e idx data
+  have key : ((w.put (setClientProperty cfg.reg e idx data).1).get? (id : Int)) = some (setClientProperty cfg.reg e idx data).1 := by
+    have := World.get_put_same w (setClientProperty cfg.reg e idx data).1
+    rw [hid, he] at this
+    exact this
+  split <;> simpa [ok, fail] using key
+
+
+theorem step_entityProperty_eq (cfg : Config) (hg : cfg.dialect.game ≠ .wowp) (w : World) (id idx : Nat) (data : Bytes) :
+    step cfg w (.entityProperty id idx data) = stepEntityProperty cfg w id idx data := by
+  unfold step
+  cases hgame : cfg.dialect.game <;> simp_all
+
+theorem writesTo_other (view : EntityView) (id : Nat) (p : Packet) (ps : List Packet)
+    (h : target p ≠ some (id : Int)) : writesTo view id (p :: ps) = writesTo view id ps := by
+  cases p <;> simp only [writesTo]
+  rename_i id' idx data
+  have : id' ≠ id := by
+    intro hc; apply h; simp [target, hc]
+  simp [this]
+
+theorem applyWrites_append (d : List (String × Val)) (a b : List (String × Val)) :
+    applyWrites d (a ++ b) = applyWrites (applyWrites d a) b := by
+  unfold applyWrites; exact List.foldl_append
+
+/-- **Last writer wins over whole histories.** Take any world, any entity `id` in it and
+any packet list in which the packets addressed to `id` are property updates (packets
+addressed to *other* entities are arbitrary: creations, updates, calls, nested updates,
+positions, failing or not). After playing the list leniently, entity `id` has the same
+definition, cell / base buckets and pose, and its client bucket is the initial one with the
+successfully decoded updates applied in stream order — so each property holds the value of
+its last successful update, or its initial value if there was none; updates with a bad
+index or an undecodable payload change nothing. -/
+theorem property_history_lww (cfg : Config) (hg : cfg.dialect.game ≠ .wowp) (id : Nat) :
+    ∀ (ps : List Packet) (w : World) (e : Entity), w.WF → w.get? (id : Int) = some e →
+      (∀ p ∈ ps, target p = some (id : Int) → ∃ idx data, p = .entityProperty id idx data) →
+      ∃ e', (runAll cfg w ps).get? (id : Int) = some e' ∧ e'.view = e.view ∧ e'.id = e.id ∧
+        e'.client = applyWrites e.client (writesTo e.view id ps) ∧
+        e'.cell = e.cell ∧ e'.base = e.base ∧ e'.volatile = e.volatile := by
+  intro ps
+  induction ps with
+  | nil => intro w e _ hget _; exact ⟨e, hget, rfl, rfl, rfl, rfl, rfl, rfl⟩
+  | cons p ps ih =>
+    intro w e hwf hget hps
+    have hwf' : (step cfg w p).world.WF := step_wf cfg w p hwf
+    have hps' : ∀ q ∈ ps, target q = some (id : Int) → ∃ idx data, q = .entityProperty id idx data :=
+      fun q hq => hps q (List.mem_cons_of_mem _ hq)
+    show ∃ e', (runAll cfg (step cfg w p).world ps).get? (id : Int) = some e' ∧ _
+    by_cases ht : target p = some (id : Int)
+    · obtain ⟨idx, data, rfl⟩ := hps p (List.mem_cons_self ..) ht
+      rw [step_entityProperty_eq cfg hg] at hwf' ⊢
+      have hg1 := stepEntityProperty_get cfg w id idx data e hwf hget
+      rw [setClientProperty_entity] at hg1
+      cases hw : propWrite e.view idx data with
+      | none =>
+        rw [hw] at hg1
+        obtain ⟨e', h1, h2, h3, h4, h5, h6, h7⟩ := ih _ e hwf' hg1 hps'
+        refine ⟨e', h1, h2, h3, ?_, h5, h6, h7⟩
+        rw [h4]; simp [writesTo, hw]
+      | some kv =>
+        rw [hw] at hg1
+        obtain ⟨e', h1, h2, h3, h4, h5, h6, h7⟩ := ih _ _ hwf' hg1 hps'
+        refine ⟨e', h1, h2, h3, ?_, h5, h6, h7⟩
+        rw [h4]
+        simp only [writesTo, if_true, hw, Option.toList_some]
+        rw [applyWrites_append]
+        rfl
+    · have hfr : (step cfg w p).world.get? (id : Int) = some e := by
+        rw [step_frame cfg w p hwf (id : Int) (fun i hi hc => ht (hc ▸ hi))]
+        exact hget
+      obtain ⟨e', h1, h2, h3, h4, h5, h6, h7⟩ := ih _ e hwf' hfr hps'
+      refine ⟨e', h1, h2, h3, ?_, h5, h6, h7⟩
+      rw [h4, writesTo_other e.view id p ps ht]
+
+/-- reading one property back after a history: the value of the last successful write to
+it, if any -/
+theorem applyWrites_get_last (d : List (String × Val)) (ws : List (String × Val)) (k : String) (v : Val)
+    (rest : List (String × Val)) (hrest : ∀ kv ∈ rest, kv.1 ≠ k) :
+    dictGet? (applyWrites d (ws ++ (k, v) :: rest)) k = some v := by
+  rw [applyWrites_append]
+  generalize applyWrites d ws = d0
+  show dictGet? (applyWrites (dictSet d0 k v) rest) k = some v
+  have : ∀ (rest : List (String × Val)) (d1 : List (String × Val)), (∀ kv ∈ rest, kv.1 ≠ k) →
+      dictGet? d1 k = some v → dictGet? (applyWrites d1 rest) k = some v := by
+    intro rest
+    induction rest with
+    | nil => intro d1 _ h; exact h
+    | cons kv rest ih =>
+      intro d1 hr h
+      show dictGet? (applyWrites (dictSet d1 kv.1 kv.2) rest) k = some v
+      apply ih _ (fun x hx => hr x (List.mem_cons_of_mem _ hx))
+      rw [dictGet_dictSet_other d1 kv.1 k kv.2 (Ne.symm (hr kv (List.mem_cons_self ..)))]
+      exact h
+  exact this rest _ hrest (dictGet_dictSet_same d0 k v)
+
+/-- … and a property nobody wrote keeps its initial value -/
+theorem applyWrites_get_untouched (d : List (String × Val)) (ws : List (String × Val)) (k : String)
+    (h : ∀ kv ∈ ws, kv.1 ≠ k) : dictGet? (applyWrites d ws) k = dictGet? d k := by
+  induction ws generalizing d with
+  | nil => rfl
+  | cons kv ws ih =>
+    show dictGet? (applyWrites (dictSet d kv.1 kv.2) ws) k = dictGet? d k
+    rw [ih _ (fun x hx => h x (List.mem_cons_of_mem _ hx))]
+    exact dictGet_dictSet_other d kv.1 k kv.2 (Ne.symm (h kv (List.mem_cons_self ..)))
+
+/-- the side condition of `property_history_lww` on a concrete mixed list: the packets for entity 7 are
+property updates, the others address entity 9 -/
+example : ∀ p ∈ [Packet.entityProperty 7 0 [1], .position 9 default, .entityMethod 9 3 [], .entityProperty 7 5 []],
+    target p = some ((7 : Nat) : Int) → ∃ idx data, p = .entityProperty 7 idx data := by
+  intro p hp ht
+  simp only [List.mem_cons, List.mem_nil_iff, or_false] at hp
+  rcases hp with rfl | rfl | rfl | rfl
+  · exact ⟨_, _, rfl⟩
+  · simp [target] at ht
+  · simp [target] at ht
+  · exact ⟨_, _, rfl⟩
+
 /-- Non-vacuity: a reachable, non-trivial world satisfies `WF` and an update on it is
 framed (two entities, update addressed to the first). -/
 example : (World.put (World.put {} { id := 7, view := default }) { id := 9, view := default }).WF :=
